@@ -17,7 +17,10 @@ except Exception as e:
 checked = 0
 for name, sub in expected:
     checked += 1
-    pkg = "eolib.protocol" + ("." + sub.replace("/", ".") if sub else "")
+    # the hand-written wrapper packages exist for the documented layout only; a type declared in any other directory is
+    # looked up in the generated package itself (and nothing is demanded of the top-level package for it)
+    documented = sub in ("", "map", "net", "net/client", "net/server", "pub", "pub/server")
+    pkg = ("eolib.protocol" if documented else "eolib.protocol._generated") + ("." + sub.replace("/", ".") if sub else "")
     try:
         m = importlib.import_module(pkg)
     except Exception as e:
@@ -28,6 +31,6 @@ for name, sub in expected:
         problems.append(f"{name} is not a class exported from {pkg}")
         continue
     top = getattr(eolib, name, None)
-    if top is None or not inspect.isclass(top):
+    if documented and (top is None or not inspect.isclass(top)):
         problems.append(f"{name} is not exported from the top-level package")
 print(json.dumps({"problems": problems[:20], "checked": checked, "python": sys.version.split()[0]}))
